@@ -425,6 +425,11 @@ func c08Run(in []string) []string {
 		responses["default"] = map[string]interface{}{"description": "d"}
 	}
 	op := map[string]interface{}{"operationId": "op", "responses": responses}
+	// operationId is optional: on every other description neither this operation nor its sibling has one
+	noIDs := len(in[5])%2 == 1
+	if noIDs {
+		delete(op, "operationId")
+	}
 	if len(opProduces) > 0 {
 		op["produces"] = opProduces
 	}
@@ -459,7 +464,20 @@ func c08Run(in []string) []string {
 		panic("C08: unsupported method " + method)
 	}
 	d := c08BaseDoc()
-	d.Spec().Paths.Paths = map[string]spec.PathItem{"/op": item}
+	// a sibling operation of the same API with another declared success status (what one operation declares is
+	// no business of the other's, whether or not they carry ids)
+	var sibling spec.Operation
+	sibRaw := `{"operationId":"op","responses":{"203":{"description":"s"}}}`
+	if noIDs {
+		sibRaw = `{"responses":{"203":{"description":"s"}}}`
+	}
+	if err := json.Unmarshal([]byte(sibRaw), &sibling); err != nil {
+		panic(err)
+	}
+	if !noIDs {
+		sibling.ID = "sibling"
+	}
+	d.Spec().Paths.Paths = map[string]spec.PathItem{"/op": item, "/sibling": {PathItemProps: spec.PathItemProps{Get: &sibling}}}
 
 	// ---- the API
 	st := &c08State{}
@@ -495,6 +513,7 @@ func c08Run(in []string) []string {
 	if herr != nil {
 		st.supplied = herr
 	}
+	api.RegisterOperation("GET", "/sibling", runtime.OperationHandlerFunc(func(interface{}) (interface{}, error) { return "sibling", nil }))
 	api.RegisterOperation(method, "/op", runtime.OperationHandlerFunc(func(interface{}) (interface{}, error) {
 		// the outcome is made anew for every call (the handler may serve other requests first)
 		st.ran = true
@@ -607,6 +626,9 @@ func c08Run(in []string) []string {
 		func() {
 			defer func() { _ = recover() }()
 			handler.ServeHTTP(&c08Writer{h: http.Header{}}, mkReq([]string{"image/png;q=0.9, */*;q=0.1"}, ""))
+			sib := mkReq(nil, "")
+			sib.Method, sib.URL.Path, sib.RequestURI = "GET", "/sibling", "/sibling"
+			handler.ServeHTTP(&c08Writer{h: http.Header{}}, sib)
 			nope := mkReq(nil, auth)
 			nope.URL.Path, nope.RequestURI = "/nope", "/nope"
 			handler.ServeHTTP(&c08Writer{h: http.Header{}}, nope)
